@@ -54,6 +54,14 @@ def run_property(pid, tier, seed):
             eng.axioms.append(ax, ks)
         all_ctx.update(getattr(e1, "fn_ctx", {}))
     eng.fn_ctx = all_ctx
+    extra_info = None
+    if hasattr(mod, "extra_obligations"):
+        try:
+            obs, extra_info = mod.extra_obligations(eng, driver)
+            eng.obligations.extend(obs)
+        except Exception as ex:  # noqa
+            import traceback as _tb
+            extra_info = {"status": "bounded-fallback", "reason": f"{type(ex).__name__}: {ex}", "trace": _tb.format_exc()[-600:]}
     # ---- [P] property-level lemmas (pure logic over the contracts)
     if hasattr(mod, "lemmas"):
         eng.cur_fn = f"lemma:{pid}"
@@ -205,6 +213,7 @@ def run_property(pid, tier, seed):
         "canary": canary,
         "path_canaries": {"checked": len(canaries), "refuted_or_unknown": sum(1 for o in canaries if o.result != "valid")},
         "explanation": getattr(mod, "EXPLANATION", ""),
+        "property_specific": extra_info,
     }
     if bounded:
         coverage["evaluations"] = sum(b.get("evaluations", 0) for b in bounded)
